@@ -17,6 +17,7 @@ type Obligation struct {
 	Unit     string   // function / lemma name
 	Kind     string   // post, pre, inv.init, inv.keep, safety.*, frame, lemma, assert, vacuity
 	Props    []string // property ids this obligation serves
+	Known    bool     // fails by design: states a recorded known finding
 	Guard    string   // path condition (SMT)
 	Goal     string   // SMT Bool term to prove under Guard and the unit's assumptions
 	Src      string   // contract source text
@@ -56,6 +57,7 @@ type VC struct {
 	mathint     *types.Named
 	notes       []string // abstractions applied (for evidence)
 	unbound     []string // clauses that did not bind (skipped, reported UNDECIDED)
+	incomplete  []string // modelling gaps met in this unit: undischarged obligations are undecided, not violations
 	noteSet     map[string]bool
 	valueQ      []string // terms to request with get-value on sat
 	valueQSet   map[string]bool
